@@ -20,6 +20,11 @@ package alt
 //@   opt props = C19
 //@   opt whole = true
 //@   modifies everything
+//@   ensures [C19 nil] isnil(old(v0)) ==> (len(diffs) == 0) == isnil(old(v1))
+//@   ensures [C19 bool] isbool(old(v0)) ==> (len(diffs) == 0) == (isbool(old(v1)) && anybool(old(v1)) == anybool(old(v0)))
+//@   ensures [C19 string] isstring(old(v0)) ==> (len(diffs) == 0) == (isstring(old(v1)) && anystr(old(v1)) == anystr(old(v0)))
+//@   ensures [C19 int] SIntKind(old(v0)) && !typeis(old(v0), gen.Int) && SIntKind(old(v1)) ==> (len(diffs) == 0) == (anyint(old(v0)) == anyint(old(v1)))
+//@   ensures [C19 int] SIntKind(old(v0)) && !typeis(old(v0), gen.Int) && !NumKind(old(v1)) ==> len(diffs) == 1
 //@   region dNil = case nil
 //@     let d0 = len(diffs)
 //@     assert [C19 nil] (len(diffs) == d0) == isnil(v1)
